@@ -22,6 +22,8 @@ TRUSTED = [
     'slice mode (DESIGN 2.7) for TypeOverwriting.visit_func_decl: statements outside the subset are havocked (the branch that '
     'overwrites a type argument of an instantiation is abstracted as a whole); obligations sit at the attribute stores',
     'write census: syntactic analysis of the real AST of type_overwriting.py (see C03)',
+    'flag frame census (syntactic): is_transformed / error_injected are stored only by constructors and by visit_func_decl in '
+    'transformations/base.py, type_overwriting.py and modules/processor.py; other modules are not scanned',
     'find_irrelevant_type is a query that does not modify the program (its meaning is C09, bounded)',
     'attribute reads, isinstance, len, getattr, str have no side effects',
 ]
@@ -43,8 +45,15 @@ def custom_proof(tier):
     fe = frontend.Frontend(REPO)
     mut = statecheck.ir_mutator_names(fe)
     out = statecheck.store_census(fe, 'src.transformations.type_overwriting',
-                                  {'var_type', 'ret_type', 'inferred_type', 'type_args'}, allowed_roots=('type_graph',))
+                                  {'var_type', 'ret_type', 'inferred_type', 'type_args'}, allowed_roots=('type_graph',),
+                                  site_functions={'src.transformations.type_overwriting.TypeOverwriting.visit_func_decl'})
     out += statecheck.mutator_call_census(fe, 'src.transformations.type_overwriting', set(), mut)
+    # frame of the report flags: what visit_func_decl establishes (flags <-> writes into the program) is what
+    # Processor.inject_fault reads only if nobody else stores them (the timeout wrapper of base.py included)
+    out += statecheck.flag_frame_census(
+        fe, ['src.transformations.base', 'src.transformations.type_overwriting', 'src.modules.processor'],
+        {'is_transformed', 'error_injected'},
+        {'src.transformations.type_overwriting.TypeOverwriting.visit_func_decl'})
     return out
 
 
